@@ -64,6 +64,7 @@ type scn struct {
 	sup      *supervisor.PIDZero
 	pcancel  func()
 	startupShort, shutdownShort bool
+	suInitial, suTimeout        time.Duration // overrides of the start-up timer settings (0 = default)
 
 	mu       sync.Mutex
 	nextK    int
@@ -294,6 +295,52 @@ func (s *scn) genSpecs() {
 		s.specs[k].exit = "never"
 		s.specs[k].heldRun = true
 		s.specs[k].stopBlocks = s.r.Bool()
+	case "hupburst":
+		// a burst of reload requests (SIGHUPs, ReloadAll calls, triggers) while a pass is inside a held Reload():
+		// every one of them must get a pass of its own once the manager is free again
+		s.specs = make([]spec, 1+s.r.Intn(3))
+		for i := range s.specs {
+			s.specs[i] = spec{exit: "sig", stopBlocks: s.r.Bool(), reloadable: s.r.Bool(), rsender: s.r.Chance(1, 2)}
+		}
+		k := s.r.Intn(len(s.specs))
+		s.specs[k].reloadable = true
+		s.specs[k].heldReload = true
+	case "shorttimers":
+		// EVERY configurable timer is short (start-up timeout 60 ms, shutdown timeout 120 ms) while a Reload() call
+		// is held for longer: those timers do not govern a reload pass, nothing may change (passes never overlap)
+		s.startupShort, s.shutdownShort = true, true
+		s.specs = make([]spec, 1+s.r.Intn(3))
+		for i := range s.specs {
+			s.specs[i] = spec{exit: "sig", stopBlocks: s.r.Bool(), reloadable: s.r.Bool(), rsender: s.r.Chance(1, 3)}
+		}
+		k := s.r.Intn(len(s.specs))
+		s.specs[k].reloadable = true
+		s.specs[k].heldReload = true
+	case "gatetimed":
+		// the start-up deadline in real time: a gating runnable that is never ready, or ready only well after the
+		// deadline; start-up timeout 300 ms, initial delay 37 ms (doubling back-off: polls at 37, 111, 259, 555 ms)
+		s.startupShort = true
+		s.suInitial, s.suTimeout = 37*time.Millisecond, 300*time.Millisecond
+		s.specs = make([]spec, 2+s.r.Intn(2))
+		for i := range s.specs {
+			s.specs[i] = spec{exit: "sig", stopBlocks: s.r.Bool()}
+		}
+		s.specs[0].stateable = true
+		s.specs[0].neverReady = s.r.Bool()
+	case "timeoutfinal":
+		// the shutdown gives up at its timeout (a runnable never returns); a Stateable runnable whose monitor never
+		// obtained its state channel left its initial state before it was stopped: after Run() returned the map must
+		// still report the state it had when its Stop() returned
+		s.shutdownShort = true
+		s.specs = make([]spec, 2+s.r.Intn(2))
+		for i := range s.specs {
+			s.specs[i] = spec{exit: "sig", stopBlocks: false}
+		}
+		s.specs[0].stateable = true
+		s.specs[0].heldSub = true
+		k := 1 + s.r.Intn(len(s.specs)-1)
+		s.specs[k].exit = "never"
+		s.specs[k].heldRun = true
 	case "lateerr":
 		// a runnable ignores Stop and cancellation until after the shutdown timeout has ended the wait and Run() /
 		// Shutdown() have returned; THEN its Run returns a real error ("nothing a runnable does afterwards can
@@ -375,6 +422,10 @@ func (s *scn) build() error {
 	if s.startupShort {
 		su = 60 * time.Millisecond
 	}
+	suInit := time.Millisecond
+	if s.suTimeout > 0 {
+		su, suInit = s.suTimeout, s.suInitial
+	}
 	if s.shutdownShort {
 		sd = 120 * time.Millisecond
 	}
@@ -382,7 +433,7 @@ func (s *scn) build() error {
 		supervisor.WithContext(pctx),
 		supervisor.WithRunnables(rs...),
 		supervisor.WithLogHandler(s.ph),
-		supervisor.WithStartupInitial(time.Millisecond),
+		supervisor.WithStartupInitial(suInit),
 		supervisor.WithStartupTimeout(su),
 		supervisor.WithShutdownTimeout(sd),
 		supervisor.WithSignals(syscall.SIGUSR2), // real OS signals are not part of the scenarios
@@ -1044,6 +1095,145 @@ func (s *scn) runNeverReturn() {
 	s.snap()
 }
 
+// releaseReloads releases held Reload() calls until the reload manager is idle and nothing moves.
+func (s *scn) releaseReloads() {
+	for round := 0; round < 40; round++ {
+		s.quiesce()
+		did := false
+		for i, sp := range s.specs {
+			if !sp.heldReload {
+				continue
+			}
+			calls, rets := 0, 0
+			for _, e := range s.rec.Events() {
+				if e == fmt.Sprintf("ReloadCall %d", i) {
+					calls++
+				}
+				if e == fmt.Sprintf("ReloadRet %d", i) {
+					rets++
+				}
+			}
+			if calls > rets && len(s.cores[i].ReloadRelease) == 0 {
+				s.cores[i].ReloadRelease <- struct{}{}
+				did = true
+			}
+		}
+		if !did {
+			return
+		}
+	}
+}
+
+// preludeHupBurst: one request starts a pass that is held inside Reload(); a burst of further requests from the
+// three sources arrives meanwhile; then every Reload() is released until the manager is idle.
+func (s *scn) preludeHupBurst() {
+	s.apiCall("Sig hup", func() { s.sup.SendSignal(syscall.SIGHUP) })
+	s.quiesce()
+	n := 2 + s.r.Intn(3)
+	for b := 0; b < n; b++ {
+		switch s.r.Intn(4) {
+		case 0:
+			s.apiCall("ReloadAll", s.sup.ReloadAll)
+		case 1:
+			var snd []int
+			for i, sp := range s.specs {
+				if sp.rsender {
+					snd = append(snd, i)
+				}
+			}
+			if len(snd) > 0 {
+				i := snd[s.r.Intn(len(snd))]
+				c := s.cores[i]
+				s.rec.Emit("TrigR %d", i)
+				go func() { c.ReloadTrig <- struct{}{} }()
+				break
+			}
+			fallthrough
+		default:
+			s.apiCall("Sig hup", func() { s.sup.SendSignal(syscall.SIGHUP) })
+		}
+		if s.r.Bool() {
+			s.quiesce()
+		}
+	}
+	s.quiesce()
+	s.snap()
+	s.releaseReloads()
+	s.quiesce()
+	s.snap()
+}
+
+// preludeShortTimers: a Reload() call is held for 2.5 start-up timeouts; a second reload request arrives meanwhile.
+func (s *scn) preludeShortTimers() {
+	s.apiCall("ReloadAll", s.sup.ReloadAll)
+	s.quiesce()
+	time.Sleep(150 * time.Millisecond) // start-up timeout 60 ms, shutdown timeout 120 ms
+	if s.r.Bool() {
+		s.apiCall("ReloadAll", s.sup.ReloadAll)
+	} else {
+		s.apiCall("Sig hup", func() { s.sup.SendSignal(syscall.SIGHUP) })
+	}
+	s.quiesce()
+	time.Sleep(100 * time.Millisecond)
+	s.quiesce()
+	s.snap()
+}
+
+// preludeGateTimed: real-time verdict on the start-up deadline (300 ms; verdicts at 2x with margins >= 250 ms).
+func (s *scn) preludeGateTimed(t0 time.Time) {
+	if s.specs[0].neverReady {
+		select {
+		case <-s.runDone:
+		case <-time.After(3 * time.Second):
+		}
+		if el := time.Since(t0); el > 600*time.Millisecond {
+			s.rec.Emit("StartupOverdue never-ready gate: Run() back after %dms, start-up timeout 300ms (initial delay 37ms); returned=%v",
+				el.Milliseconds(), s.runReturned())
+		}
+		return
+	}
+	// ready only 450 ms after Run() began: 150 ms after the deadline
+	time.Sleep(time.Until(t0.Add(450 * time.Millisecond)))
+	late := time.Since(t0)
+	s.readySet[0] = true
+	s.cores[0].SetReady(true)
+	select {
+	case <-s.runDone:
+	case <-time.After(1500 * time.Millisecond):
+	}
+	if s.has("RunCall 1") {
+		s.rec.Emit("StartupOverdue gate of runnable 0 opened although it became ready only %dms after Run() began (start-up timeout 300ms): runnable 1 was started",
+			late.Milliseconds())
+	}
+}
+
+// runTimeoutFinal: see family timeoutfinal.
+func (s *scn) runTimeoutFinal() {
+	c0 := s.cores[0]
+	s.startRun()
+	s.rec.WaitFor("RunCall 0", 3*time.Second)
+	s.readySet[0] = true
+	c0.SetReady(true)
+	s.rec.WaitFor(fmt.Sprintf("RunCall %d", len(s.specs)-1), 3*time.Second)
+	s.quiesce()
+	b := 1 + s.r.Intn(3)
+	c0.Emit(stateNames[b], b)
+	s.quiesce()
+	s.snap()
+	s.shutdownTriggered = true
+	if s.r.Bool() {
+		s.apiCall("Shutdown", s.sup.Shutdown)
+	} else {
+		s.apiCall("Sig term", func() { s.sup.SendSignal(syscall.SIGTERM) })
+	}
+	if !s.settle(1500*time.Millisecond, true) { // the shutdown timeout is 120 ms
+		s.rec.Emit("Overdue timeoutfinal: 1.5s after the trigger (shutdown timeout 120ms): Run()-returned=%v still-blocked=%s",
+			s.runReturned(), s.blockedOps())
+	}
+	s.quiesce()
+	s.snap()
+}
+
 // runLateErr: the shutdown gives up at its timeout; afterwards the stuck runnables return real errors.
 func (s *scn) runLateErr() {
 	s.startRun()
@@ -1089,6 +1279,10 @@ func (s *scn) run() {
 		s.runLateErr()
 		return
 	}
+	if s.family == "timeoutfinal" {
+		s.runTimeoutFinal()
+		return
+	}
 	if s.family == "shutdownfirst" {
 		s.runShutdownFirst()
 		return
@@ -1107,6 +1301,10 @@ func (s *scn) run() {
 			s.rec.WaitQuiescent(2 * time.Second)
 		}
 		park.Release()
+	} else if s.family == "gatetimed" {
+		t0 := time.Now()
+		s.startRun()
+		s.preludeGateTimed(t0)
 	} else {
 		s.startRun()
 	}
@@ -1133,6 +1331,12 @@ func (s *scn) run() {
 	}
 	if s.family == "subentry" {
 		s.preludeSubEntry()
+	}
+	if s.family == "shorttimers" {
+		s.preludeShortTimers()
+	}
+	if s.family == "hupburst" {
+		s.preludeHupBurst()
 	}
 	steps := 6 + s.r.Intn(18)
 	phase := "startup"
@@ -1281,7 +1485,7 @@ func main() {
 		child(*seed, *family)
 		return
 	}
-	fams := []string{"mixed", "startup", "timeout", "state", "reload", "sdsender", "big", "gatefail", "finalstate", "errs", "earlyshutdown", "latesub", "subclose", "gatecancel", "subentry", "slowstop", "shutdownfirst", "neverreturn", "lateerr"}
+	fams := []string{"mixed", "startup", "timeout", "state", "reload", "sdsender", "big", "gatefail", "finalstate", "errs", "earlyshutdown", "latesub", "subclose", "gatecancel", "subentry", "slowstop", "shutdownfirst", "neverreturn", "lateerr", "shorttimers", "gatetimed", "timeoutfinal", "hupburst"}
 	type job struct {
 		seed uint64
 		fam  string
